@@ -289,6 +289,177 @@ def flatten_state(e, s, sep):
     return out
 
 
+# ----------------------------------------------------------------------------------------
+# roundtrip_sparse (Proofs/C01Sparse.lean): spec `prS` and hypothesis `OkS`, transcribed from
+# Flatland/Spec/C01Sparse.lean independently of the Lean runner, on element STATES
+
+_NORM_CACHE = {}
+
+
+def _norm(kind, text):
+    key = (repr(sorted(kind.items(), key=str)) if isinstance(kind, dict) else repr(kind), text)
+    if key not in _NORM_CACHE:
+        _NORM_CACHE[key] = fl.norm_text(kind, text)
+    return _NORM_CACHE[key]
+
+
+def wf_schema(s):
+    """Lean `wf`: mapping fields are named and pairwise distinct."""
+    for x in fl.walk_schema(s):
+        if x["t"] in ("dict", "compound"):
+            names = [f["name"] for f in x["fields"]]
+            if any(n is None for n in names) or len(set(names)) != len(names):
+                return False
+    return True
+
+
+def root_ok(s):
+    """Lean `rootOK`."""
+    if s["t"] in ("leaf", "joined", "compound"):
+        return s["name"] is not None
+    if s["t"] == "array":
+        return s["name"] is not None or s["member"]["name"] is not None
+    return True
+
+
+def ok_state(e, s, kinds, maxdigits):
+    """Lean `OkS` / `okSB`: conforming, settled state — the members of a mapping are any subset of the
+    declared fields in any order."""
+    t = s["t"]
+    if t == "leaf":
+        return "leaf" in e and _norm(kinds[s["k"]], e["leaf"])[0] == e["leaf"]
+    if t == "joined":
+        if "joined" not in e:
+            return False
+        u, ms = e["joined"]
+        nu, members = _norm(kinds[s["k"]], u)
+        if nu != u:
+            return False
+        texts = [m.get("leaf") for m in ms]
+        return (members is not None and texts == list(members)) or (u == "" and ms == [])
+    if t == "array":
+        m = s["member"]
+        if "array" not in e or m["t"] != "leaf":
+            return False
+        return all("leaf" in x and _norm(kinds[m["k"]], x["leaf"])[0] == x["leaf"] for x in e["array"])
+    if t in ("dict", "compound"):
+        if "dict" not in e:
+            return False
+        keys = [k for k, _ in e["dict"]]
+        if len(set(keys)) != len(keys):
+            return False
+        for k, v in e["dict"]:
+            if not any(f["name"] == k and ok_state(v, f, kinds, maxdigits) for f in s["fields"]):
+                return False
+        return True
+    if t == "list":
+        if "list" not in e:
+            return False
+        ms = e["list"]
+        if len(ms) > s["max"] or (ms and len(str(len(ms) - 1)) > maxdigits):
+            return False
+        return all(ok_state(m, s["member"], kinds, maxdigits) for m in ms)
+    return False
+
+
+def _keep(u, v):
+    return (not u) or v != ""
+
+
+def emits_state(e, s, u):
+    """Lean `emitsB`: the state still emits a pair when empty values are dropped (`u`)."""
+    return any(_keep(u, v) for _, v in flatten_state(e, s, ""))
+
+
+def is_req(s, f):
+    """Lean `isReq`: the fields a fresh mapping is created with."""
+    if s["t"] == "compound" or s["mode"] == "dense":
+        return True
+    if s["mode"] == "sparse":
+        return False
+    return not f.get("opt")
+
+
+def prs_state(e, s, sep, u, kinds):
+    """Lean `prS`: what from_flat(flatten(e)) rebuilds — the documented pruning plus the sparse
+    normalisation (minimum members first, then the other touched fields, in declaration order)."""
+    t = s["t"]
+    if t == "leaf":
+        return e
+    if t == "joined":
+        text = e["joined"][0]
+        if u and text == "":
+            return {"joined": ["", []]}
+        members = _norm(kinds[s["k"]], text)[1] or []
+        return {"joined": [text, [{"leaf": m} for m in members]]}
+    if t == "array":
+        m = s["member"]
+        own = s["prune"] and not (s["name"] is None and m["name"] is None)
+        uu = u or own
+        return {"array": [x for x in e["array"] if emits_state(x, m, uu)]}
+    if t in ("dict", "compound"):
+        anon = {"t": "dict", "name": None, "opt": False, "mode": "sparse", "fields": s["fields"]}
+        keys = [k for k, v in flatten_state(e, anon, sep) if _keep(u, v)]
+        held = dict((k, v) for k, v in e["dict"])
+        first, second = [], []
+        for f in s["fields"]:
+            nf = f["name"]
+            touched = any(k.startswith(nf) for k in keys)
+            val = prs_state(held[nf], f, sep, u, kinds) if nf in held else blank_state(f)
+            if is_req(s, f):
+                first.append([nf, val if touched else blank_state(f)])
+            elif touched:
+                second.append([nf, val])
+        return {"dict": first + second}
+    if t == "list":
+        ms, m = e["list"], s["member"]
+        if s["prune"]:
+            return {"list": [prs_state(x, m, sep, True, kinds) for x in ms if emits_state(x, m, True)]}
+        keep = list(ms)
+        while keep and not emits_state(keep[-1], m, u):
+            keep.pop()
+        return {"list": [prs_state(x, m, sep, u, kinds) if emits_state(x, m, u) else blank_state(m) for x in keep]}
+    return e
+
+
+def sparse_normal(e, s):
+    """Lean `sparseNormal`: every mapping holds its members minimum-first, then in declaration order."""
+    t = s["t"]
+    if t in ("dict", "compound") and "dict" in e:
+        fields = {f["name"]: f for f in s["fields"]}
+        order = {f["name"]: i for i, f in enumerate(s["fields"])}
+        n = len(s["fields"])
+        ranks = []
+        for k, v in e["dict"]:
+            if k not in fields:
+                return False
+            ranks.append((0 if is_req(s, fields[k]) else n + 1) + order[k])
+            if not sparse_normal(v, fields[k]):
+                return False
+        return all(a < b for a, b in zip(ranks, ranks[1:]))
+    if t == "list" and "list" in e:
+        return all(sparse_normal(m, s["member"]) for m in e["list"])
+    return True
+
+
+def _walk_states(e, s):
+    yield e, s
+    t = s["t"]
+    if t in ("dict", "compound") and "dict" in e:
+        fields = {f["name"]: f for f in s["fields"]}
+        for k, v in e["dict"]:
+            if k in fields:
+                yield from _walk_states(v, fields[k])
+    elif t == "list" and "list" in e:
+        for m in e["list"]:
+            yield from _walk_states(m, s["member"])
+
+
+def thm_hyp(s0, schema, kinds, maxdigits):
+    """The decidable hypotheses of `roundtrip_sparse` (everything but SepSafe)."""
+    return wf_schema(schema) and root_ok(schema) and ok_state(s0, schema, kinds, maxdigits)
+
+
 def force_max(s):
     for x in fl.walk_schema(s):
         if x["t"] == "list":
@@ -299,11 +470,27 @@ def force_max(s):
 class C01(Property):
     id = "C01"
     title = "flatten() output rebuilds the same element tree through from_flat()"
-    proof_module = "Proofs.C01SecondExamples"
-    level_text = 'Lean 4 theorems `roundtrip_pruned` and `roundtrip`: for every well-formed schema without SparseDicts, every SepSafe separator and every conforming settled element state, from_flat(flatten(e)) rebuilds exactly the documented pruning `pr e` of e (pruning Lists keep the members that still emit a non-empty value, renumbered; non-pruning Lists lose trailing members without a flat representation; Arrays drop empty members when pruning applies), and e itself when no pruning applies; `roundtrip_second_flatten`: a second round trip leaves the flat output unchanged (although the tree may still change: [[a],['']] -> [[a],[]] -> [[a]]); `roundtrip_flatten_noprune`: without pruning sequences the flat output is identical; `roundtrip_flatten_sub`: in general pairs are only left out, all with empty values, keys change in list indexes only — any depth/width/nesting, through the real breadth-first order, the sloppy startswith of Mapping._set_flat and the List index recogniser. Model tied to /repo by differential correspondence on states extracted from real elements; SparseDicts and native leaf values are decided by an independent Python oracle on every case.'
-    level_note = "Trusted: Lean kernel + propext/Classical.choice/Quot.sound; hand-written model Flatland/Flat.lean (tied by correspondence, 2.5k/80k cases per run); scalar set(text) and compound texts enter as tables computed from the real classes in isolation (C04/C18); SepSafe is stronger than 'separator not in names' (KF-C01-a); theorems exclude SparseDicts (oracle only; negation witness roundtrip_sparse_fails)."
+    proof_module = "Proofs.C01SparseDense"
+    level_text = ('Lean 4 theorem `roundtrip_sparse` (= `c01_sparse_full`, stated and proved at full strength): for EVERY well-formed schema — Dict, Schema, Compound, SparseDict (plain and minimum_fields=\'required\'), List pruning or not, Array/MultiValue, JoinedString, every scalar kind, any depth —, every SepSafe separator and every conforming settled element state e (`OkS`: a mapping holds ANY subset of its declared fields in ANY order), from_flat(flatten(e)) rebuilds exactly the tree `prS e`: the documented pruning `pr` (pruning Lists keep the members that still emit a non-empty value, renumbered; non-pruning Lists lose trailing members without a flat representation; Arrays drop empty members when pruning applies) plus the sparse normalisation of KF-C01-d/e written as a function on states — a rebuilt mapping holds the members a fresh one is created with first (minimum_fields), then the other fields some surviving key of the mapping STARTS WITH (`touched`: the startswith of Mapping._set_flat, so a member that emits no surviving pair is absent and an absent field whose name is a prefix of a sibling\'s key is materialised blank), all in declaration order. Without SparseDicts `prS = pr` (`prS_eq_pr`) and this is `roundtrip_pruned`/`roundtrip` (e itself when no pruning applies); `roundtrip_second_flatten`: without SparseDicts a second round trip leaves the flat output unchanged (the tree may still change: [[a],[\'\']] -> [[a],[]] -> [[a]]); `roundtrip_flatten_noprune`, `roundtrip_flatten_sub`: flat-level clauses without SparseDicts; `roundtrip_sparse_second`: with SparseDicts the second trip is again prS once the rebuilt tree conforms. The proofs go through the real breadth-first order, the sloppy startswith of Mapping._set_flat (first-layer confinement `reach_filter`, which unlike C02\'s `confined` holds for SparseDicts too) and the List index recogniser. Model tied to /repo by differential correspondence on states extracted from real elements: the Lean runner returns `prS e` and the decidable hypotheses (`okSB`, proved sound: `roundtrip_sparse_checked`); whenever they hold and the separator is SepSafe the harness demands that the tree the REAL from_flat(flatten(e)) builds equals `prS e`; an independent Python transcription of prS/OkS states the same clause in the oracle. Native leaf values are decided by the Python oracle on every case.')
+    level_note = ("Trusted: Lean kernel + propext/Classical.choice/Quot.sound; hand-written model Flatland/Flat.lean (tied by correspondence, 2.5k/80k cases per run; the theorem's hypotheses hold on ~77% of the generated cases and on ~80% of those whose schema contains a SparseDict — tags thm-sparse-applies*); scalar set(text) and compound texts enter as tables computed from the real classes in isolation (C04/C18); SepSafe is stronger than 'separator not in names' (KF-C01-a) and is decided by the harness (fl.sep_safe), not inside Lean; NOT theorems with SparseDicts (checked at run time by the Lean runner on every case the theorem applies to, flag spec_agrees): sparseNormal(prS e), and — when every scalar kind reads '' back as '' (blankSettled; false for Boolean(false='no'), KF-C01-h) — OkS(prS e), and — when additionally no field name is a prefix of a sibling's (prefixFree) — flatten(prS(prS e)) = flatten(prS e); both extra hypotheses are needed: without blankSettled a materialised blank Boolean(false='no') member reads back as 'no' on the second trip, without prefixFree the second trip can materialise further blank members (cascade through a materialised blank Dict holding a SparseDict/required; witness in NOTES-h3.md). Negation witnesses: roundtrip_sparse_fails (identical flat output is false with SparseDicts: member order), unsettled leaf example in Proofs/C01SparseExamples.lean.")
     technique = 'Lean 4 proof (structural induction + level-order lemma + confinement) over a hand-written model; differential correspondence; Python oracle'
     theorems = [
+        "Flatland.Flat.Proofs.roundtrip_sparse",
+        "Flatland.Flat.Proofs.c01_sparse_full",
+        "Flatland.Flat.Proofs.roundtrip_sparse_flatten",
+        "Flatland.Flat.Proofs.roundtrip_sparse_second",
+        "Flatland.Flat.Proofs.roundtrip_sparse_checked",
+        "Flatland.Flat.Proofs.prS_eq_pr",
+        "Flatland.Flat.Proofs.okS_of_okP",
+        "Flatland.Flat.Proofs.okSB_sound",
+        "Flatland.Flat.Proofs.wfS_eq",
+        "Flatland.Flat.Proofs.rts_all",
+        "Flatland.Flat.Proofs.rts_mapping",
+        "Flatland.Flat.Proofs.rts_list",
+        "Flatland.Flat.Proofs.field_roundtripS",
+        "Flatland.Flat.Proofs.setFields_closed",
+        "Flatland.Flat.Proofs.reach_filter",
+        "Flatland.Flat.Proofs.reach_other_head",
         "Flatland.Flat.Proofs.roundtrip_pruned",
         "Flatland.Flat.Proofs.roundtrip_second_flatten",
         "Flatland.Flat.Proofs.roundtrip_flatten_noprune",
@@ -328,6 +515,7 @@ class C01(Property):
     ]
     assumptions = [
         "SepSafe(sep, names): stronger than 'the separator does not occur in names' (overlaps are KF-C01-a)",
+        "OkS(e): every scalar text is a fixpoint of its own set() (else KF-C01-b/c/f/h/i), mapping keys are declared fields, Array members are scalars; decided by the Lean runner (okSB, proved sound) and, independently, by the harness (ok_state) — the two answers are compared on every case (key thm_hyp)",
         "the theorems assume no List is longer than its maximum_set_flat_members (default 1024); longer lists are truncated by from_flat — recorded as KF-C01-g and exercised by 30% of the generated cases",
     ]
     rule = ("random schemas (Dict/SparseDict/List pruning and not/Array/MultiValue/JoinedString/DateYYYYMMDD/every scalar kind, depth<=4, "
@@ -408,9 +596,15 @@ class C01(Property):
         schema, kinds = case["schema"], case["kinds"]
         texts = [v for _, v in f0] + [v for _, v in f1]
         comps = fl.observed_compounds(el, schema) + fl.observed_compounds(el1, schema) + fl.observed_compounds(el2, schema)
+        s0 = fl.extract(el, schema)
+        env = fl.make_env(kinds, texts, comps)
+        hyp = thm_hyp(s0, schema, kinds, env["maxdigits"])
+        safe = fl.sep_safe(case["sep"], fl.schema_names(schema))
         return {"flatten": [list(p) for p in f0], "rt_elem": fl.extract(el1, schema),
                 "rt_flatten": [list(p) for p in f1], "rt2_flatten": [list(p) for p in f2],
-                "_elem": fl.extract(el, schema), "_env": fl.make_env(kinds, texts, comps)}
+                # the decidable hypotheses of roundtrip_sparse, recomputed by the Lean runner (okSB/wfS/rootOK)
+                "thm_hyp": hyp,
+                "_sep_safe": safe, "_elem": s0, "_env": env}
 
     def has_model(self, case):
         return not fl.digit_sep(case["sep"])
@@ -418,14 +612,25 @@ class C01(Property):
     def model_input(self, case, obs):
         if not obs or "_elem" not in obs:
             return {"schema": case["schema"], "sep": case["sep"], "elem": {"leaf": ""}, "env": fl.make_env([], [], [])}
-        return {"schema": case["schema"], "sep": case["sep"], "elem": obs["_elem"], "env": obs["_env"]}
+        return {"schema": case["schema"], "sep": case["sep"], "elem": obs["_elem"], "env": obs["_env"],
+                "sep_safe": bool(obs.get("_sep_safe"))}
 
     def compare(self, impl_obs, model_obs):
         if "skip" in impl_obs:
             return None
         if "raise" in impl_obs:
             return "implementation raised %s" % impl_obs["raise"]
-        return super().compare(impl_obs, model_obs)
+        r = super().compare(impl_obs, model_obs)
+        if r is not None:
+            return r
+        # roundtrip_sparse tied to the code: whenever its hypotheses hold, the tree the REAL
+        # from_flat(flatten(e)) builds is the spec `prS e` the Lean runner computes
+        if impl_obs.get("thm_hyp") and impl_obs.get("_sep_safe") and isinstance(model_obs, dict) and "prs_elem" in model_obs:
+            from harness.core import canon
+            if canon(model_obs["prs_elem"]) != canon(impl_obs["rt_elem"]):
+                return "roundtrip_sparse: real from_flat(flatten(e))=%s but Lean prS e=%s" % (
+                    canon(impl_obs["rt_elem"])[:300], canon(model_obs["prs_elem"])[:300])
+        return None
 
     def oracle(self, case):
         schema, kinds, sep = case["schema"], case["kinds"], case["sep"]
@@ -452,6 +657,15 @@ class C01(Property):
                               "observed": [list(p) for p in f1], "state": s0, "pruned_state": expect, "rt_state": s1})
         if f2 != f1:
             fails.append({"clause": "second-trip-stable", "expected": [list(p) for p in f1], "observed": [list(p) for p in f2]})
+        # roundtrip_sparse, stated on the real code: under its hypotheses the rebuilt TREE is prS(e) — SparseDicts
+        # included — the second trip does not change the flat output, and the rebuilt tree is in normal order
+        maxd = __import__("sys").get_int_max_str_digits()
+        if thm_hyp(s0, schema, kinds, maxd) and fl.sep_safe(sep, fl.schema_names(schema)):
+            want_tree = prs_state(s0, schema, sep, False, kinds)
+            if s1 != want_tree:
+                fails.append({"clause": "sparse-exact-tree", "expected": want_tree, "observed": s1, "state": s0})
+            elif not sparse_normal(s1, schema):
+                fails.append({"clause": "sparse-rebuilt-normal", "observed": s1})
         exact = fl.EXACT_TYPES | {"DateMember"}
         if not pruned and not fails:
             v0 = Counter((k, v) for k, v, kk, _ in leaf_values(el, schema, sep) if kinds[kk]["type"] in exact)
@@ -582,6 +796,39 @@ class C01(Property):
             t.append("has-" + s["t"] + ("-prune" if s.get("prune") else ""))
         for k in case["kinds"]:
             t.append("kind-" + k["type"])
+        schema, kinds = case["schema"], case["kinds"]
+        sparse = any(x["t"] == "dict" and x["mode"] != "dense" for x in fl.walk_schema(schema))
+        s0 = obs.get("_elem")
+        if s0 is not None:
+            applies = bool(obs.get("thm_hyp")) and bool(obs.get("_sep_safe"))
+            if applies:
+                t.append("thm-sparse-applies")
+                if sparse:
+                    t.append("thm-sparse-applies+has-sparse")
+                    holds = [m for e, sc in _walk_states(s0, schema) if sc["t"] == "dict" and sc["mode"] != "dense" for m in [e]]
+                    if any(len(m["dict"]) for m in holds):
+                        t.append("thm-sparse-applies+sparse-populated")
+                    # cross-check of the recorded class predicates against the exact spec
+                    want = prs_state(s0, schema, case["sep"], False, kinds)
+                    pred_d = order_normal(prune_state(s0, schema, False), schema)
+                    if want == pred_d:
+                        t.append("kf-d-prediction=prS")
+                    elif (strip_blank_sparse(drop_pairless_tail(pred_d, schema), schema)
+                          == strip_blank_sparse(drop_pairless_tail(order_normal(want, schema), schema), schema)):
+                        t.append("kf-e-normalised-prediction~prS")
+                    elif flatten_state(pred_d, schema, case["sep"]) == flatten_state(want, schema, case["sep"]):
+                        # same flat output; the trees differ in members that are never flattened (a fresh
+                        # JoinedString comes back with the members its empty text splits into)
+                        t.append("kf-prediction~prS-same-flatten")
+                    else:
+                        t.append("kf-predictions-differ-from-prS")
+                    t.append("sparse-in-normal-order" if sparse_normal(s0, schema) else "sparse-reordered-by-trip")
+            else:
+                why = ("sep-not-safe" if not obs.get("_sep_safe") else
+                       "not-wf" if not wf_schema(schema) else "root-unnamed" if not root_ok(schema) else "state-unsettled-or-over-ceiling")
+                t.append("thm-sparse-na:" + why)
+                if sparse:
+                    t.append("thm-sparse-na+has-sparse")
         return list(dict.fromkeys(t))
 
     def shrink_candidates(self, case):
